@@ -115,8 +115,66 @@ def streams(rng, tier):
     # exactly at the end (a disagreement with the model on a successful decode is a failing input)
     from verifkit.props import C01
     typed = C01.typed_mutation_streams(rng, tier)
-    return [s1, s2, s3] + typed
+    return [s1, s2, s3, iter_stream(rng, tier)] + typed
+
+
+def judge_iter(op, impl, model, spec):
+    """`aiter`: the typed array / map iterators behind an Iterator adaptor (nth, skip, step_by, take, last, count) against the
+    same script written with plain `next()` calls on a second decoder over the same bytes: items, errors and the final
+    position must be identical (that is what the adaptors are defined to mean); for a well-formed array of u8 read with
+    `all` the items are also the data model's."""
+    if " | " not in impl:
+        return "violation"
+    a, b = impl.split(" | ")
+    if a != b:
+        return "violation"
+    e = [x for x in op.split(" ") if x.startswith("#E=")]
+    if e and a != e[0][3:].replace("~", " "):
+        return "violation"
+    return "ok"
+
+
+def iter_stream(rng, tier):
+    ops = []
+    def arr(vals, indef, wide=0):
+        body = b"".join(gen.head(0, v) for v in vals)
+        return (b"\x9f" + body + b"\xff") if indef else (gen.head(4, len(vals), wide) if wide else gen.head(4, len(vals))) + body
+    def mp(pairs, indef):
+        body = b"".join(gen.head(0, k) + gen.head(0, v) for k, v in pairs)
+        return (b"\xbf" + body + b"\xff") if indef else gen.head(5, len(pairs)) + body
+    for _ in range(1500 if tier == "quick" else 30000):
+        n = rng.choice([0, 0, 1, 2, 3, 5, 8, 24, 30])
+        vals = [rng.choice([0, 1, 23, 24, 255]) for _ in range(n)]
+        indef = rng.random() < 0.5
+        tail = rng.choice([b"", b"\x07\x08", b"\xff", b"\x9f\x01\xff", b"\x18"])
+        kind = rng.choice(["array", "array", "arrayc", "map"])
+        if kind == "map":
+            e = mp([(v, (v * 7) % 256) for v in vals], indef)
+        else:
+            e = arr(vals, indef, rng.choice([0, 0, 1, 2, 4, 8]) if not indef else 0)
+        r = rng.random()
+        if r < 0.12:
+            e = e[:rng.randint(0, len(e))]                                  # truncated
+        elif r < 0.2 and len(e) > 1:
+            m = bytearray(e); m[rng.randrange(1, len(m))] = rng.choice([0x61, 0xf6, 0x19, 0xff, 0x38]); e = bytes(m)   # a non-u8 / break inside
+        k = rng.choice([0, 1, 2, n - 1, n, n + 1, n + 2, 40]) if n else rng.choice([0, 1, 3])
+        k = max(k, 0)
+        ad = rng.choice(["all", f"nth:{k}", f"nth:{k}", f"skip:{k}", f"skip:{k}", f"step:{max(k, 1)}", f"take:{k}"] +
+                        (["last", "count"] if r >= 0.2 else []))
+        exp = ""
+        if ad == "all" and r >= 0.2 and kind != "map":
+            exp = " #E=" + (",".join(str(v) for v in vals) or "-").replace(" ", "~") + f"~@{len(e)}"
+        ops.append(f"aiter {kind} {ad} {gen.hexb(e + tail)}{exp}")
+    st = Stream("iterator-adaptors", "hcore", ops, model_ops=["nop"] * len(ops), judge=judge_iter,
+                rule="aiter: Decoder::array_iter / array_iter_with / map_iter behind nth, skip, step_by, take, last, count vs plain next() calls "
+                     "(definite and indefinite containers, data behind them, truncations, foreign items inside); no model op: the two transcripts "
+                     "come from the same build",
+                nontrivial=lambda op, impl: " | " in impl)
+    st.shrinkable = False
+    return st
 
 
 def replay_streams(rp):
+    if rp["original_op"].startswith("aiter"):
+        return [Stream("replay", "hcore", [rp["original_op"]], model_ops=["nop"], judge=judge_iter)]
     return [Stream("replay", "hcore", [rp["original_op"]], judge=judge)]
